@@ -31,8 +31,10 @@ Arguments Err {A E} e.
    [Refused]   the connector itself failed: tonic::ConnectError wrapping the connector's io::Error;
    [Handshake] the connector returned an io, but hyper's `builder.handshake(io).await` failed
                (connection.rs): the hyper::Error, wrapped in tonic::ConnectError as well (fix
-               4d59edca; before it the bare hyper::Error reached the caller as UNKNOWN) *)
-Inductive ekind := Refused | Handshake.
+               4d59edca; before it the bare hyper::Error reached the caller as UNKNOWN);
+   [NotReady]  the connector's poll_ready itself returned Err (Connector::poll_ready wraps it in
+               ConnectError too): not a failed attempt - the connector was never called *)
+Inductive ekind := Refused | Handshake | NotReady.
 Record cerr := mkErr { e_attempt : N; e_reason : N; e_kind : ekind }.
 
 (* What lies beneath the ConnectError.  The reason the environment gives for a failure also fixes
@@ -78,8 +80,14 @@ Notation Call := (Calls 1).      (* one call issued on the channel, run to compl
    connector), [w_pr_left] = Pending answers poll_ready still gives in this cycle, [w_prl] = the
    number it is reset to after every call *)
 Record world := mkWorld { w_net : reach; w_lat : nat; w_attempts : N;
-                          w_ready : bool; w_pr_left : nat; w_prl : nat }.
-Definition init_world (net : reach) (lat prl : nat) : world := mkWorld net lat 0 false prl prl.
+                          w_ready : bool; w_pr_left : nat; w_prl : nat;
+                          (* OBSERVATION runs only (audit2 N-C14-2): Some (g, r) = after g more
+                             successful cycles the connector's poll_ready answers Err; None = a
+                             sound connector, the only kind the property theorems speak about *)
+                          w_break : option (nat * N) }.
+Definition init_world (net : reach) (lat prl : nat) : world := mkWorld net lat 0 false prl prl None.
+Definition init_world_breaking (net : reach) (lat prl : nat) (good : nat) (r : N) : world :=
+  mkWorld net lat 0 false prl prl (Some (good, r)).
 
 (* hyper connection as seen through SendRequest *)
 Inductive conn :=
@@ -118,8 +126,12 @@ Definition new_reconnect (is_lazy : bool) : reconnect := mkRc Idle None false is
 (* MakeSendRequestService::poll_ready -> Connector::poll_ready -> the user's connector *)
 Definition mk_poll_ready (w : world) : world * poll (result unit cerr) :=
   match w_pr_left w with
-  | S p => (mkWorld (w_net w) (w_lat w) (w_attempts w) (w_ready w) p (w_prl w), Pending)
-  | O => (mkWorld (w_net w) (w_lat w) (w_attempts w) true O (w_prl w), Ready (Ok tt))
+  | S p => (mkWorld (w_net w) (w_lat w) (w_attempts w) (w_ready w) p (w_prl w) (w_break w), Pending)
+  | O =>
+      match w_break w with
+      | Some (O, r) => (w, Ready (Err (mkErr 0 r NotReady)))
+      | _ => (mkWorld (w_net w) (w_lat w) (w_attempts w) true O (w_prl w) (w_break w), Ready (Ok tt))
+      end
   end.
 
 (* MakeSendRequestService::call -> Connector::call -> the user's connector: counts the invocation
@@ -128,7 +140,8 @@ Definition mk_poll_ready (w : world) : world * poll (result unit cerr) :=
 Definition make_service (w : world) : option (world * cfut) :=
   if w_ready w then
     let k := w_attempts w + 1 in
-    Some (mkWorld (w_net w) (w_lat w) k false (w_prl w) (w_prl w),
+    Some (mkWorld (w_net w) (w_lat w) k false (w_prl w) (w_prl w)
+                  (match w_break w with Some (S g, r) => Some (g, r) | b => b end),
           Fut (w_lat w) (match w_net w with
                          | Up => Ok Alive
                          | Down r => Err (mkErr k r Refused)
@@ -287,7 +300,7 @@ Section Stack.
 
   (* ------------------------------------------------------------ histories *)
   Definition set_net (w : world) (n : reach) : world :=
-    mkWorld n (w_lat w) (w_attempts w) (w_ready w) (w_pr_left w) (w_prl w).
+    mkWorld n (w_lat w) (w_attempts w) (w_ready w) (w_pr_left w) (w_prl w) (w_break w).
   Definition drop_conn (to : conn) (ch : chan) : chan :=
     match rc_state (ch_rc ch) with
     | Connected Alive => mkChan (set_state (ch_rc ch) (Connected to)) (ch_failed ch)
@@ -362,6 +375,18 @@ Definition real_send_request (c : conn) : send_result :=
 Definition run (is_lazy : bool) (lat prl : nat) (net0 : reach) (h : list step) : run_result :=
   run_with real_conn_poll_ready real_send_request (fuel_for lat prl) is_lazy lat prl net0 h.
 
+(* OBSERVATION (not covered by the property): the same run with a connector whose poll_ready
+   answers Err after [good] successful cycles.  tower's contract: a service whose poll_ready errs
+   is dead - Reconnect::poll_ready passes the error on (`r?`), the Buffer worker fails for good *)
+Definition run_breaking (is_lazy : bool) (lat prl good : nat) (r : N) (net0 : reach) (h : list step) : run_result :=
+  let fuel := fuel_for lat prl in
+  match build real_conn_poll_ready is_lazy fuel (init_world_breaking net0 lat prl good r) with
+  | (None, w, eo) => mkRun eo [] (w_attempts w) None
+  | (Some ch, w, eo) =>
+      let '(rs, ch', w') := run_steps real_conn_poll_ready real_send_request fuel h ch w in
+      mkRun eo rs (w_attempts w') (Some (rc_i2c (ch_rc ch')))
+  end.
+
 (* ---------------------------------------------------------------- error -> Status (status.rs) *)
 (* Status::from_error on a source chain is Model/Status.v's [from_error_code] over [enode]s:
    Status / TimeoutExpired / ConnectError / hyper::Error are recognised, everything else - an
@@ -372,7 +397,7 @@ Definition run (is_lazy : bool) (lat prl : nat) (net0 : reach) (h : list step) :
 (* transport::Error > ConnectError > [hyper::Error(Io) >] wrappers > the underlying error *)
 Definition chain_of_err (e : cerr) : list enode :=
   EOther :: EConnect ::
-  (match e_kind e with Refused => [] | Handshake => [EHyper false false None] end) ++
+  (match e_kind e with Handshake => [EHyper false false None] | _ => [] end) ++
   repeat EOther (c_depth (cause_of_reason (e_reason e))) ++ [EOther].
 Definition code_from_error := from_error_code.
 Definition chain_of (o : outcome) : option (list enode) :=
@@ -390,8 +415,8 @@ Definition outcome_code (o : outcome) : option N :=
 (* only the connector's own error text carries the attempt number and the reason *)
 Definition err_tr (code : N) (e : cerr) : tr :=
   match e_kind e with
-  | Refused => tag 1 [Nn code; Nn (e_attempt e); Nn (e_reason e)]
   | Handshake => tag 1 [Nn code; Nn 0; Nn 0]
+  | _ => tag 1 [Nn code; Nn (e_attempt e); Nn (e_reason e)]
   end.
 Definition outcome_tr (o : outcome) : tr :=
   match o, outcome_code o with
@@ -423,6 +448,29 @@ Definition result_tr (r : run_result) : tr :=
 
 Definition obs_run (is_lazy : bool) (lat prl : N) (net0 : reach) (h : list step) : tr :=
   result_tr (run is_lazy (N.to_nat lat) (N.to_nat prl) net0 h).
+Definition obs_run_breaking (is_lazy : bool) (lat prl good r : N) (net0 : reach) (h : list step) : tr :=
+  result_tr (run_breaking is_lazy (N.to_nat lat) (N.to_nat prl) (N.to_nat good) r net0 h).
+
+(* codes only (0 = a response): what can be compared over a real TCP transport, where the error
+   texts are the operating system's and the connector is hyper-util's *)
+Definition outcome_code_n (o : outcome) : N :=
+  match o, outcome_code o with
+  | Response, _ => 0
+  | _, Some c => c
+  | OutOfFuel, None => 1000
+  | _, None => 1001
+  end.
+Definition ready_code_n (o : ready_out) : N :=
+  match o with
+  | RoOk => 0
+  | RoErr e => code_from_error (chain_of_err e)
+  | RoHang => 1000
+  | _ => 1001
+  end.
+Definition obs_run_codes (is_lazy : bool) (net0 : reach) (h : list step) : tr :=
+  let r := run is_lazy 0 0 net0 h in
+  Nd [oopt (fun o => Nn (ready_code_n o)) (r_eager r);
+      olist (fun c : call_rec => Nn (outcome_code_n (snd (fst c)))) (r_calls r)].
 
 (* ---------------------------------------------------------------- assumed contracts, as a predicate *)
 (* What the theorems assume about the parameters of [Section Stack] (hyper).  The
